@@ -32,6 +32,8 @@ import EngineModel.Spec.Dir
 import EngineModel.Spec.Stmts
 import EngineModel.Api.CratesV1Stmts
 import EngineModel.Db.V2CratesStmts
+import EngineModel.TracksV2.Stmts
+import EngineModel.TracksV1.Stmts
 import EngineModel.Pure.Detect
 import EngineModel.Gen.DetectGen
 
@@ -66,6 +68,32 @@ def c16Run (ks : List CmdKind) : String :=
   s!"ok observer={b01 (isObserver op)} unchanged={b01 unchanged} repeat={b01 rep} " ++
   s!"nowrite={b01 (ks.all (· != .write))} closed={b01 (closedShape ks)}"
 
+/-- `track::set_<name>` of the 2.x model -/
+def v2Setter : String → Option TracksV2.Setter
+  | "album" => some (.album none) | "artist" => some (.artist none) | "average_loudness" => some (.averageLoudness none)
+  | "beatgrid" => some (.beatgrid []) | "bitrate" => some (.bitrate none) | "bpm" => some (.bpm none)
+  | "comment" => some (.comment none) | "composer" => some (.composer none) | "duration" => some (.duration none)
+  | "genre" => some (.genre none) | "hot_cue_at" => some (.hotCueAt 0 none) | "hot_cues" => some (.hotCues [])
+  | "key" => some (.key none) | "last_played_at" => some (.lastPlayedAt none) | "loop_at" => some (.loopAt 0 none)
+  | "loops" => some (.loops []) | "main_cue" => some (.mainCue none) | "publisher" => some (.publisher none)
+  | "rating" => some (.rating none) | "relative_path" => some (.relativePath []) | "sample_count" => some (.sampleCount none)
+  | "sample_rate" => some (.sampleRate none) | "title" => some (.title none) | "track_number" => some (.trackNumber none)
+  | "waveform" => some (.waveform []) | "year" => some (.year none)
+  | _ => none
+
+/-- `track::set_<name>` of the 1.x model -/
+def v1Field : String → Option TracksV1.Field
+  | "album" => some .album | "artist" => some .artist | "average_loudness" => some .averageLoudness
+  | "beatgrid" => some .beatgrid | "bitrate" => some .bitrate | "bpm" => some .bpm
+  | "comment" => some .comment | "composer" => some .composer | "duration" => some .duration
+  | "genre" => some .genre | "hot_cue_at" => some (.hotCueAt 0) | "hot_cues" => some .hotCues
+  | "key" => some .key | "last_played_at" => some .lastPlayedAt | "loop_at" => some (.loopAt 0)
+  | "loops" => some .loops | "main_cue" => some .mainCue | "publisher" => some .publisher
+  | "rating" => some .rating | "relative_path" => some .relativePath | "sample_count" => some .sampleCount
+  | "sample_rate" => some .sampleRate | "title" => some .title | "track_number" => some .trackNumber
+  | "waveform" => some .waveform | "year" => some .year
+  | _ => none
+
 open Spec.Stmts in
 /-- the skeletons of the concrete statement programs, by public operation name -/
 def c14Allowed (gen op : String) : Option (List Skeleton) :=
@@ -94,6 +122,12 @@ def c14Allowed (gen op : String) : Option (List Skeleton) :=
   | "v2", "crate.clear_tracks" => v2 (.clearTracks 0)
   | "v2", "create_track" => v2 .createTrack
   | "v2", "remove_track" => v2 (.removeTrack 0)
+  | "v2", "track.update" => some [(TracksV2.TOp.update 0 default).skeleton]
+  | "v1", "track.update" => some [(TracksV1.TOp.update 0 default).skeleton]
+  | "v2", name =>
+    if name.startsWith "track.set_" then (v2Setter (name.drop 10).toString).map fun σ => [(TracksV2.TOp.set 0 σ).skeleton] else none
+  | "v1", name =>
+    if name.startsWith "track.set_" then (v1Field (name.drop 10).toString).map fun f => [if f.scoped then .scope else .single] else none
   | _, _ => none
 
 open Pure.Detect Spec.Dir in
